@@ -9,3 +9,12 @@ package host
 
 //@ spec func u64(x int) bool = 0 <= x && x < 18446744073709551616
 //@ spec func cleanID(x string) bool = !contains(x, "/") && !contains(x, str(1)) && !contains(x, str(2)) && !contains(x, str(3))
+
+// ---- identifier sequences (C15)
+
+//@ contract ParseIdentifier
+//@   pure
+//@   let rest = substr(identifier, len(prefix), len(identifier) - len(prefix))
+//@   ensures parsed_suffix: err == nil && prefix != "" ==> identifier == prefix + rest && nth(strconv.ParseUint(rest, 10, 64), 1) == nil && result0 == nth(strconv.ParseUint(rest, 10, 64), 0)
+//@   ensures fits_u64: 0 <= result0 && result0 < 18446744073709551616
+//@   ensures roundtrip: forall n int :: u64(n) && prefix != "" && identifier == prefix + dec(n) && !contains(substr(identifier, 1, len(identifier) - 1), prefix) ==> err == nil && result0 == n
